@@ -88,7 +88,7 @@ fn main() {
     // 2. lock-step correspondence
     if let Some(mp) = &opts.model {
         let mut model = Model::spawn(mp);
-        let n = opts.tier.pick(1500u64, 30000);
+        let n = opts.tier.pick(3000u64, 40000);
         for i in 0..n {
             let mut r = Rng::for_case(opts.seed ^ 0x10C5, i);
             match lockstep::run_case(&mut r, &b, &mut model, &mut ev, i) {
@@ -98,7 +98,7 @@ fn main() {
                     // the model process keeps its state; re-synchronise on the next (init)
                 }
             }
-            if ev.violation_count() >= 4 {
+            if ev.violation_count() >= 3 {
                 break;
             }
         }
@@ -108,7 +108,7 @@ fn main() {
     }
 
     // 3. generated programs under the simulator
-    let n = opts.tier.pick(700u64, 8000);
+    let n = opts.tier.pick(1500u64, 12000);
     let schedules = opts.tier.pick(4usize, 16);
     for i in 0..n {
         let mut r = Rng::for_case(opts.seed ^ 0x51A1, i);
